@@ -34,7 +34,9 @@ def histories(draw):
             ops.append({"op": k, "m": draw(st.sampled_from([0, 1, 2, 3]) if ens else st.one_of(st.integers(0, 30), st.integers(95, 130)))})
         elif k == "exchange":
             # (in a ladder whose chains do not share their bounds the received point may lie outside the receiver's box)
-            ops.append({"op": k, "u": [draw(st.floats(-1.5, 1.5)) for _ in range(cfg["d"])], "keep_outside": draw(st.sampled_from([False, False, True]))})
+            ops.append({"op": k, "u": [draw(st.floats(-1.5, 1.5)) for _ in range(cfg["d"])], "keep_outside": draw(st.sampled_from([False, False, True])),
+                        # the caller goes on using the array it handed over (a buffer it fills with the next position to send)
+                        "reuse_array": draw(st.booleans())})
         elif k == "step_clone":
             ops.append({"op": k, "m": draw(st.integers(1, 3))})
         else:
@@ -165,8 +167,15 @@ def body_history(case, ctx):
                         near = np.abs(pos - e) < 1e-6 * (1 + np.abs(e))
                         pos = np.where(near, e + 1e-3, pos)
                     # exactly what the tempering worker does with a received position
-                    ch.replace_last(pos.copy())
+                    handed = pos.copy()
+                    ch.replace_last(handed)
                     ch.probs[-1] = tgt.logp(pos) * ch.inv_temp
+                    if op.get("reuse_array"):
+                        handed += 1e3 * (1.0 + np.abs(handed))        # the caller's array is the caller's: the chain keeps the values it was given
+                        got = np.asarray(ch.get_last(), dtype=float)
+                        if not np.array_equal(got, pos):
+                            raise Violation(f"replace_last-aliases:{cfg['cls']}", f"after replace_last(x) the caller changed its own array x: the chain's current point is now {got.tolist()}, "
+                                                                                f"it was given {pos.tolist()}")
                     ctx.event("exchange")
                 elif op["op"] == "reload" and stored_any(ch, cfg):
                     # the sampler is saved and restored (same posterior object); what it records from here on is held to the same rule
